@@ -21,12 +21,13 @@ func (t *Dense) T(axes ...int) (err error) {
 			return
 		}
 
-		// check if the current axes are just a reverse of the previous transpose's
-		isReversed := true
-		for i, s := range t.oshape() {
-			if transform.Shape()[i] != s {
+		// check if the current axes are just a reverse of the previous transpose's:
+		// composing the pending permutation with the new one must give the identity
+		// (comparing shapes is not enough when several axes have the same size)
+		isReversed := len(axes) == len(t.transposeWith)
+		for i := 0; isReversed && i < len(axes); i++ {
+			if axes[i] < 0 || axes[i] >= len(t.transposeWith) || t.transposeWith[axes[i]] != i {
 				isReversed = false
-				break
 			}
 		}
 
